@@ -127,10 +127,32 @@ func vpH_C44_alert_step() {
 		nows = []int{3, 4, 5, 18, 19, 34}
 	}
 	now := at(nows[vpShape("later", 0, len(nows)-1)])
-	if _, err := r.Eval(context.Background(), 0, now, q, nil, 0); err != nil {
+	vec, err := r.Eval(context.Background(), 0, now, q, nil, 0)
+	if err != nil {
 		panic(err)
 	}
 	want := vpXStep(m, present, now, hold, keep)
+	// the ALERTS / ALERTS_FOR_STATE series written for this evaluation (the for-state restore has run: see set-up)
+	nAlerts, nForState := 0, 0
+	for _, smp := range vec {
+		switch smp.Metric.Get("__name__") {
+		case "ALERTS":
+			nAlerts++
+			wantState := map[int]string{1: "pending", 2: "firing"}[want.state]
+			vpAssert(smp.F == 1 && smp.Metric.Get("alertstate") == wantState && smp.Metric.Get("alertname") == "a" && smp.Metric.Get("x") == "y", "ALERTS sample carries the alert's state and labels")
+		case "ALERTS_FOR_STATE":
+			nForState++
+			vpAssert(smp.F == float64(want.activeAt.Unix()) && smp.Metric.Get("alertname") == "a" && smp.Metric.Get("x") == "y", "ALERTS_FOR_STATE carries the activation time")
+		default:
+			vpAssert(false, "only ALERTS and ALERTS_FOR_STATE samples are produced")
+		}
+	}
+	wantSeries := 0
+	if want.state == 1 || want.state == 2 {
+		wantSeries = 1
+	}
+	vpObserve("alerts_series", nAlerts)
+	vpAssert(nAlerts == wantSeries && nForState == wantSeries, "one ALERTS and one ALERTS_FOR_STATE sample exactly for a pending or firing alert")
 	var got *Alert
 	n := 0
 	for _, x := range r.active {
